@@ -155,6 +155,21 @@ pub struct Outcome {
     pub distinct: BTreeMap<String, u64>,
 }
 
+impl Outcome {
+    /// Merge the outcome of a second engine run for the same property.
+    pub fn absorb(&mut self, o: Outcome) {
+        self.records.extend(o.records);
+        merge(&mut self.stats, &o.stats);
+        self.crashes.extend(o.crashes);
+        self.capped |= o.capped;
+        self.wall_s += o.wall_s;
+        self.machinery_errors.extend(o.machinery_errors);
+        for (k, v) in o.distinct {
+            *self.distinct.entry(k).or_insert(0) += v;
+        }
+    }
+}
+
 struct Slot {
     child: Child,
     rx: mpsc::Receiver<String>,
